@@ -63,8 +63,10 @@ class Run:
     STALE = 220
     WATCHDOG = 2.5       # seconds of wall clock a resumed thread may take to reach its next scheduling point
 
-    def __init__(self, cfg, trace_socket_py=False, max_steps=6000):
+    def __init__(self, cfg, trace_socket_py=False, max_steps=6000, live=False, reset_api=False):
         self.cfg = cfg
+        self.live = live              # use the hub object the exported socket classes are bound to (module global)
+        self.reset_api = reset_api    # start this run by calling the public reset_socket_hub()
         self.n = len(cfg)
         self.hubmod = importlib.import_module("netqasm.sdk.classical_communication.thread_socket.socket_hub")
         self.sockmod = importlib.import_module("netqasm.sdk.classical_communication.thread_socket.socket")
@@ -493,33 +495,64 @@ class Run:
         def hub_setattr(h, name, value):
             object.__setattr__(h, name, wrap(value, PREFIX.get(name, name.lstrip("_"))))
 
-        RecHub = type("RecHub", (self.hubmod._SocketHub,), {"__setattr__": hub_setattr})
-        hub = RecHub()
+        if not self.live:
+            RecHub = type("RecHub", (self.hubmod._SocketHub,), {"__setattr__": hub_setattr})
+            hub = RecHub()
+        else:
+            # the hub the exported socket classes really use (bound at import time), instrumented in place
+            hub = self.sockmod.ThreadSocket._SOCKET_HUB
+            plain = next(c for c in type(hub).__mro__ if c.__name__ != "RecHub")
+            self._live_plain = plain
+            object.__setattr__(hub, "__class__", type("RecHub", (plain,), {"__setattr__": hub_setattr}))
+            if self.reset_api:
+                self.hubmod.reset_socket_hub()        # the public way of starting from a fresh hub
+            else:
+                hub.__init__()
+            hub = self.sockmod.ThreadSocket._SOCKET_HUB
+            for name, val in list(vars(hub).items()):  # take over whatever state is there now
+                raw = val._raw if type(val).__name__ == "Rec" else val
+                object.__setattr__(hub, name, wrap(raw, PREFIX.get(name, name.lstrip("_"))))
         if not isinstance(getattr(hub, "_lock", None), CoopLock):
             object.__setattr__(hub, "_lock", CoopLock())
         self.hub = hub
 
 
-        class HSock(self.sockmod.ThreadSocket):
-            _SOCKET_HUB = hub
-            _tid = -1
+        # every socket class socket.py exports (ThreadSocket, StorageThreadSocket, ...) gets a thin subclass that
+        # tags the owning thread, records callback calls and does not disconnect on garbage collection
+        import inspect
+        base = self.sockmod.ThreadSocket
+        exported = [c for c in vars(self.sockmod).values() if isinstance(c, type) and issubclass(c, base)]
 
-            def __init__(s, tid, *a, **kw):
-                s._tid = tid
-                super().__init__(*a, **kw)
+        def make_h(C):
+            class H(C):
+                _tid = -1
 
-            def recv_callback(s, msg):
-                rec("call_recv", s._tid)
-                run.cb_events.append((len(run.log) - 1, s._tid, msg))     # when the callback observed the message
-                run.storage[s._tid].append(msg)
+                def __init__(s, tid, *a, **kw):
+                    s._tid = tid
+                    C.__init__(s, *a, **kw)
 
-            def conn_lost_callback(s):
-                rec("call_lost", s._tid)
-                run.lost[s._tid] += 1
+                def recv_callback(s, msg):
+                    rec("call_recv", s._tid)
+                    at = len(run.log) - 1
+                    C.recv_callback(s, msg)          # the class's own behaviour (StorageThreadSocket stores the message)
+                    run.cb_events.append((at, s._tid, msg))     # when the callback observed the message
+                    run.storage[s._tid].append(msg)
 
-            def __del__(s):     # no implicit disconnect: Disconnect is an explicit op
-                pass
+                def conn_lost_callback(s):
+                    rec("call_lost", s._tid)
+                    run.lost[s._tid] += 1
 
+                def __del__(s):     # no implicit disconnect: Disconnect is an explicit op
+                    pass
+
+            H.__name__ = "H" + C.__name__
+            H._takes_cb = "use_callbacks" in inspect.signature(C.__init__).parameters
+            if not run.live:
+                H._SOCKET_HUB = hub
+            return H
+
+        self.hcls = {C.__name__: make_h(C) for C in exported}
+        HSock = self.hcls["ThreadSocket"]
         self.HSock = HSock
         self.socks = [None] * self.n
 
@@ -548,9 +581,12 @@ class Run:
                 run.park()
             return local
 
+        sockfile = self.sockmod.__file__
+
         def glob(frame, event, arg):
-            if frame.f_code.co_filename in run.files:
-                return local
+            fn = frame.f_code.co_filename
+            if fn in run.files or (fn == sockfile and frame.f_code.co_name == "__init__"):
+                return local        # hub / broadcast code, and the CONSTRUCTORS of the socket classes
             return None
 
         return glob
@@ -561,9 +597,13 @@ class Run:
             return self._do_bc(tid, th, op)
         k = th["key"]
         if op[0] == "connect":
-            s = self.HSock.__new__(self.HSock)
+            H = self.hcls[th.get("cls", "ThreadSocket")]
+            s = H.__new__(H)
             self.socks[tid] = s     # keep alive even when the constructor is aborted
-            s.__init__(tid, k[0], k[1], socket_id=k[2], use_callbacks=bool(th["cb"]))
+            kw = dict(socket_id=k[2])
+            if H._takes_cb:
+                kw["use_callbacks"] = bool(th["cb"])
+            s.__init__(tid, k[0], k[1], **kw)
             return "ok"
         s = self.socks[tid]
         if s is None:               # an endpoint object that never connected: build it without connecting
@@ -765,6 +805,12 @@ class Run:
                 t.join(timeout=0.05 if i in self.away_where and self.away[i] else 5)
             self.restore()
         return self
+
+    def cleanup_live(self):
+        """give the module-level hub back: plain class, fresh state (call after the last live run)"""
+        hub = self.sockmod.ThreadSocket._SOCKET_HUB
+        object.__setattr__(hub, "__class__", self._live_plain)
+        hub.__init__()
 
     def restore(self):
         for mod, nm, val in reversed(self._patched):
